@@ -103,6 +103,7 @@ func main() {
 			ev.add(u, en, st, dur)
 			if *verbose {
 				fmt.Fprintf(os.Stderr, "[%s] paths=%d outcomes=%v asserts=%d(+%d trivial) queries=%d solver=%.1fs wall=%.1fs maxdec=%d\n", en, st.Paths, st.ByOutcome, st.Asserts, st.AssertsTrivial, st.Queries, st.SolverTime.Seconds(), dur.Seconds(), st.MaxDecisions)
+				fmt.Fprintf(os.Stderr, "  new decisions by kind (feasible-of-alternatives): %v merges=%d\n", st.DecLabels, st.Merges)
 				for w := range st.Warnings {
 					fmt.Fprintln(os.Stderr, "  warn:", w)
 				}
